@@ -469,6 +469,23 @@ class Ctx:
             if m is not None:
                 self.obligations.append((name, "sat", self._model_values(m, detail)))
                 return False
+            # second opinion: a fresh (non-incremental) solver with another seed takes a different
+            # route through z3's arithmetic core; only a definite answer is used
+            if p.opts.get("second_opinion", True) and (dl is None or time.time() < dl):
+                s2 = z3.Solver()
+                s2.set("timeout", full)
+                s2.set("random_seed", (int(p.opts.get("seed") or 0) + 104729) % (2 ** 31))
+                s2.add(*p.s.assertions())
+                t0 = time.perf_counter()
+                r2 = s2.check()
+                p.tq += time.perf_counter() - t0
+                p.nq += 1
+                if r2 == z3.unsat:
+                    self.obligations.append((name, "unsat", None))
+                    return True
+                if r2 == z3.sat:
+                    self.obligations.append((name, "sat", self._model_values(s2.model(), detail)))
+                    return False
             p.gave_up.add(name)
             self.obligations.append((name, "unknown", reason))
             return True
@@ -923,7 +940,7 @@ def explore(hnames, tier="quick", opts=None, time_budget=None, serial=False):
     nproc = pl._processes
     queue = list(work)
     qto = opts.get("query_timeout_ms", 10000) / 1000.0
-    hard = opts.get("hang_seconds", max(60.0, 4 * qto + opts.get("chunk_seconds", 20.0) + 20))
+    hard = opts.get("hang_seconds", max(60.0, 5 * qto + opts.get("chunk_seconds", 20.0) + 20))
     hard_whole = (time_budget or 3600) + 60
 
     def busy():
@@ -992,10 +1009,24 @@ def explore(hnames, tier="quick", opts=None, time_budget=None, serial=False):
             elif time.perf_counter() - w.t0 > (hard_whole if HARNESSES[w.item[0]].get("whole") else hard) \
                     or not w.proc.is_alive():
                 item = w.item
-                agg[item[0]]["hung"] += 1
-                agg[item[0]]["aborted_msgs"].append(
-                    "solver did not return within %.0fs (worker killed); case %s prefix length %d"
-                    % (hard, _short(item[2], 80), len(item[3])))
+                attempt = item[4].get("attempt", 0)
+                if attempt < 2 and not over and not HARNESSES[item[0]].get("whole"):
+                    # z3's non-linear procedure hangs erratically: the killed worker reported
+                    # nothing, so re-running its subtree is sound.  Retry path by path with another
+                    # random seed so that only the hanging query is isolated.
+                    o = dict(item[4])
+                    o["attempt"] = attempt + 1
+                    o["seed"] = (int(o.get("seed") or 0) + 7919 * (attempt + 1)) % (2 ** 31)
+                    o["chunk_paths"] = 1
+                    agg[item[0]]["notes"].append("hung work item retried (attempt %d)" % (attempt + 1))
+                    agg[item[0]].setdefault("retried", 0)
+                    agg[item[0]]["retried"] += 1
+                    queue.append(item[:4] + (o,) + item[5:])
+                else:
+                    agg[item[0]]["hung"] += 1
+                    agg[item[0]]["aborted_msgs"].append(
+                        "solver did not return within %.0fs (worker killed); case %s prefix length %d"
+                        % (hard, _short(item[2], 80), len(item[3])))
                 w.kill()
                 pl.workers[wi] = _Worker()
                 progressed = True
